@@ -662,7 +662,7 @@ pub fn run(ctx: &Ctx) -> ! {
          still deserializes to a different wrapped key must be refused by BOTH engines as ALL 11 types. \
          non-trivial = >=3 deserializable modified forms tested",
         case,
-        ctx.pick(12_000, 400_000),
+        ctx.pick(12_000, 250_000),
         check_case,
     );
     rep.finish()
